@@ -1225,21 +1225,17 @@ class InterpAkimaSemi(InterpAlgorithmSemi):
             # Special case to avoid divide by zero.
 
             db = 0.5 * (dm2 + dm3)
-
-            dbpos = ((dm2 * w2 + m2 * dw2 + dm3 * w31 + m3 * dw3) - bpos * (dw2 + dw3)) / \
-                (w2 + w31)
-
             if self._compute_d_dvalues:
                 db_dv = 0.5 * (dm2_dv + dm3_dv)
 
-                dbpos_dv = ((dm2_dv * w2 + m2 * dw2_dv + dm3_dv * w31 + m3 * dw3_dv) -
-                            bpos * (dw2_dv + dw3_dv)) / \
+            if w2 + w31 > eps:
+                db = ((dm2 * w2 + m2 * dw2 + dm3 * w31 + m3 * dw3) - bpos * (dw2 + dw3)) / \
                     (w2 + w31)
 
-            if w2 + w31 > eps:
-                db = dbpos
                 if self._compute_d_dvalues:
-                    db_dv = dbpos_dv
+                    db_dv = ((dm2_dv * w2 + m2 * dw2_dv + dm3_dv * w31 + m3 * dw3_dv) -
+                             bpos * (dw2_dv + dw3_dv)) / \
+                        (w2 + w31)
 
             _, dw3 = abs_smooth_1d(m5 - m4, dm5 - dm4, delta_x=delta_x)
             _, dw4 = abs_smooth_1d(m3 - m2, dm3 - dm2, delta_x=delta_x)
@@ -1248,15 +1244,17 @@ class InterpAkimaSemi(InterpAlgorithmSemi):
                 _, dw4_dv = abs_smooth_1d(m3 - m2, dm3_dv - dm2_dv, delta_x=delta_x)
 
             # Special case to avoid divide by zero.
+            dbp1 = 0.5 * (dm3 + dm4)
+            if self._compute_d_dvalues:
+                dbp1_dv = 0.5 * (dm3_dv + dm4_dv)
+
             if w32 + w4 > eps:
-                dbp1 = 0.5 * (dm3 + dm4)
 
                 dbp1pos = ((dm3 * w32 + m3 * dw3 + dm4 * w4 + m4 * dw4) -
                            bp1pos * (dw3 + dw4)) / \
                     (w32 + w4)
 
                 if self._compute_d_dvalues:
-                    dbp1_dv = 0.5 * (dm3_dv + dm4_dv)
 
                     dbp1pos_dv = ((dm3_dv * w32 + m3 * dw3_dv + dm4_dv * w4 + m4 * dw4_dv) -
                                   bp1pos * (dw3_dv + dw4_dv)) / \
